@@ -371,6 +371,9 @@ func (jit *JITCompiler) InvalidateCache(name string) {
 	jit.unitsMux.Lock()
 	delete(jit.units, name)
 	jit.unitsMux.Unlock()
+
+	// Type-specialized variants were compiled from the same definition
+	jit.specializationCache.InvalidateSpecializations(name)
 }
 
 // ClearCache removes all compilation units from the cache
@@ -378,6 +381,8 @@ func (jit *JITCompiler) ClearCache() {
 	jit.unitsMux.Lock()
 	jit.units = make(map[string]*CompilationUnit)
 	jit.unitsMux.Unlock()
+
+	jit.specializationCache.Clear()
 }
 
 // GetProfiler returns the profiler instance
